@@ -228,6 +228,76 @@ func rulesC16(c *Ctx) {
 		}
 	}
 	if semi == nil {
+		// separators counted instead of remembered: a loop-carried integer that
+		// only ever grows (initial constant, itself, itself + constant) and feeds
+		// the test in front of the missing-separator error
+		for _, b := range pq.Blocks {
+			for _, in := range b.Instrs {
+				phi, ok := in.(*ssa.Phi)
+				if !ok || !isIntegerType(phi.Type()) {
+					continue
+				}
+				grows, other := false, false
+				for _, e := range phi.Edges {
+					switch x := e.(type) {
+					case *ssa.Const:
+					case *ssa.Phi:
+						if x != phi {
+							// the value carried round the loop through a join
+							for _, e2 := range x.Edges {
+								if bo, ok := e2.(*ssa.BinOp); ok && bo.Op == token.ADD && bo.X == ssa.Value(phi) {
+									grows = true
+								} else if e2 != ssa.Value(phi) {
+									other = true
+								}
+							}
+						}
+					case *ssa.BinOp:
+						if x.Op == token.ADD && x.X == ssa.Value(phi) {
+							grows = true
+						} else {
+							other = true
+						}
+					default:
+						other = true
+					}
+				}
+				if !grows || other {
+					continue
+				}
+				// a snapshot of the counter taken after each statement turns it back
+				// into "a separator since then": not this case
+				snapshot := false
+				for _, b2 := range pq.Blocks {
+					for _, in2 := range b2.Instrs {
+						if p2, ok := in2.(*ssa.Phi); ok && p2 != phi && isIntegerType(p2.Type()) {
+							for _, e := range p2.Edges {
+								if e == ssa.Value(phi) {
+									snapshot = true
+								}
+							}
+						}
+					}
+				}
+				if snapshot {
+					continue
+				}
+				for _, b2 := range pq.Blocks {
+					ifi, ok := b2.Instrs[len(b2.Instrs)-1].(*ssa.If)
+					if !ok || !dependsOn(ifi.Cond, phi, 0, map[ssa.Value]bool{}) {
+						continue
+					}
+					for _, sc := range b2.Succs {
+						if ret, ok := sc.Instrs[len(sc.Instrs)-1].(*ssa.Return); ok && len(ret.Results) == 2 {
+							if k, isC := ret.Results[1].(*ssa.Const); !isC || !k.IsNil() {
+								c.Bad("C16.separator", "(*Parser).ParseQuery: separator flag", ifi.Cond.Pos(), "separators are counted in a variable that only grows and the missing-separator test compares against the count: two separators in a row (an empty statement) pay for a later statement that has none in front of it")
+								return
+							}
+						}
+					}
+				}
+			}
+		}
 		c.Unk("C16.separator", "(*Parser).ParseQuery: separator flag", pq.Pos(), "no boolean loop variable found")
 		return
 	}
